@@ -37,6 +37,8 @@ def gen_scalar(rng):
                            round(rng.uniform(-1000, 1000), 3)))
     if r < 0.75:
         return rng.choice(("", "a", "ab", "Hello", "é日本", "x\ny", " ", "0", "True", "None",
+                           # not NFC-stable text: decomposed sequences and singleton code points
+                           "e\u0301", "o\u0308x", "\u2126", "\u212b", "A\u030a", "\ufb01", "\u1e9b\u0323",
                            "".join(rng.choice("abcxyz012 ") for _ in range(rng.randint(0, 12)))))
     if r < 0.82:
         return rng.choice((b"", b"a", b"\x00\xff", b"hello"))
